@@ -6,7 +6,8 @@ the optimizer, and cmaxl KEval prog_X <= the budget table.  Opytimizer.start's s
 Whatever the IR cannot express (exceptions of the arithmetic, ABC's onlooker `while`) is the run monitor's."""
 import re
 from props import _ir
-from translate import t2_start
+from translate import t2_start, t3_onlooker
+import os
 from translate.common import TranslationError
 
 IMPORTS = ['Analysis.AbsInt', 'Analysis.Sweep', 'Analysis.Counts', 'Analysis.Shape', 'Analysis.Iterations', 'Props.C03']
@@ -44,6 +45,13 @@ def run(ctx):
         ctx.sample({'regenerated_from': '%s:%d' % (d['file'], d['line']), 'text': d['text']})
     except TranslationError as ex:
         ctx.oblige('Opytimizer.start passes (space, function, store_best_only, pre_evaluation_hook) to run() unchanged', False, str(ex))
+    try:
+        text, info = t3_onlooker.generate(_ir.core.REPO)
+        _ir.core.write_if_changed(os.path.join(_ir.core.GEN, 'Onlooker.v'), text)
+        ctx.oblige('T3 regenerated ABC._send_onlooker\'s selection probability and loop shape', True)
+        ctx.sample({'regenerated_from': '%s:%d' % (info['file'], info['line']), 'text': info['text']})
+    except TranslationError as ex:
+        ctx.oblige('T3 regenerated ABC._send_onlooker\'s selection probability and loop shape', False, str(ex))
     ok, log = ctx.build_props()
     if ok:
         _ir.check_programs(ctx, meta, IMPORTS, '(fun p => c03_check KBase p || c03_check KPso p || c03_check KTree p)', None,
